@@ -107,6 +107,10 @@ class FixedWaveform(Waveform):
             padding = samples-waveform_samples
             pad = np.zeros(padding)
             waveform = np.concatenate((waveform, pad), axis=-1)
+        else:
+            # Never hand out a view of the stored waveform: callers (e.g.,
+            # GateFactory) modify the returned array in place.
+            waveform = waveform.copy()
         self.offset += samples
         return waveform
 
